@@ -12,7 +12,7 @@ import glob, json, os, subprocess, sys
 
 ROOT = os.path.dirname(os.path.dirname(os.path.abspath(__file__)))
 wave, scratch = int(sys.argv[1]), sys.argv[2]
-ordinal = {2: "SECOND", 3: "THIRD", 4: "FOURTH", 5: "FIFTH", 6: "SIXTH"}.get(wave, str(wave) + "th")
+ordinal = {2: "SECOND", 3: "THIRD", 4: "FOURTH", 5: "FIFTH", 6: "SIXTH", 7: "SEVENTH"}.get(wave, str(wave) + "th")
 
 used = {}
 for mp in sorted(glob.glob(os.path.join(ROOT, "seeded", "*", "meta.json"))):
@@ -28,6 +28,9 @@ FLAVOURS_BY_WAVE = {
  6: """- A: a defect of RE-USE: it needs the container to have been reset or rebuilt in the middle of its life (Clear, FromJSON onto a used container, removal of the last element, a ring that wrapped, a list that shrank back) and then used again in a particular way; a container that only grows, or one that is checked right after the reset, never shows it.
 - B: a defect in a container that was PRODUCED BY ANOTHER OPERATION rather than by its constructor - the result of Select/Map, of Intersection/Union/Difference, of a json round trip, the map behind a set, the list behind a stack - which looks right when enumerated but misbehaves when it is itself mutated, iterated backwards, serialised, combined with others or used as an argument. (If the property names no such operation, use FromJSON/UnmarshalJSON or Clear as the producing step.)
 - C: your most devious idea for this property - something you believe even a careful reviewer and extensive automated randomized testing would probably still miss, while a user could realistically hit it. The earlier rounds already covered: comparators with large or extreme results, NaN and -0.0, named and zero-size and pointer element types, sizes in the tens of thousands, hash collisions, package-level caches and pools, position hints that survive a mutation, the library's own TimeComparator. Find something none of these would reach.""",
+ 7: """- A: TWO COOPERATING SITES: two small edits in different functions (or files) that each look fine - and each, applied alone, leaves the property intact - but together break it in a rare situation (one site relaxes an invariant the other silently relied on: a helper that now tolerates something, a caller that now skips something). Say in notes.md what each edit does alone.
+- B: damage left behind by an operation that FAILS or DOES NOTHING: an out-of-range Remove/Set/Insert/Swap, a Pop/Dequeue/Peek on an empty container, a Remove of an absent key, an Add of present members, a Put of an identical pair, an empty variadic call, a FromJSON that returns an error, an iterator walk that finds nothing. The failing call itself answers correctly, and so does everything checked right after it; the wrong behaviour shows only in some later, different operation.
+- C: your most devious idea for this property - something you believe even a careful reviewer and extensive automated randomized testing would probably still miss, while a user could realistically hit it. The earlier rounds already covered: comparators with large or extreme results, NaN and -0.0, named and zero-size and pointer and very wide element types, sizes in the tens of thousands, hash collisions, package-level caches and pools, position hints that survive a mutation, containers reset and re-used, containers produced by other operations, the library's own TimeComparator. Find something none of these would reach (think of the ARGUMENTS: the container's own Values() or the container itself passed back in, duplicates or both present and absent items inside one variadic call, the same call repeated twice in a row, alternating directions).""",
 }
 FLAVOURS = FLAVOURS_BY_WAVE.get(wave, FLAVOURS_BY_WAVE[6])
 
